@@ -64,12 +64,14 @@ func (proxy *multicastProxy) AddMember(m io.Closer) {
 		stream := media.Get(proxy.path)
 		if stream == nil {
 			proxy.logger.Error("start multicast proxy failed.")
+			m.Close() // 流已结束：该成员永远收不到数据，断开它
 			return
 		}
 
 		udpConn, err := net.ListenUDP("udp", &net.UDPAddr{})
 		if err != nil {
 			proxy.logger.Errorf("start multicast proxy failed. %s", err.Error())
+			m.Close() // 代理无法启动：断开该成员
 			return
 		}
 
